@@ -26,8 +26,8 @@ claim('C14', 'proof', K1 + '; ' + K2,
       'note walk iter_notes proved against notes_spec by step refinement (offsets, sizes, raw descriptor, termination, exhaustion of the extent) for all inputs; all note/stab structs (Nhdr, abi, Prop incl. closures, Prpsinfo, Nt_File, Stabs) K2-checked over every (class, byte order, machine, OS ABI, file type)',
       'descriptor decoding per note type relies on struct_parse = Sem(layout) (K2) ; property-list elements and StabSection.iter_stabs not yet under K1 contract; Sem of construct node kinds assumed (DESIGN 2.8)')
 claim('C16', 'proof', K1 + '; ' + K2,
-      'ULEB128._parse proved equal to the standard value/length for every byte string (loop invariant, variant, raises-iff-truncated); roundup proved; every fixed-width primitive factory of ELFStructs/DWARFStructs and the initial-length struct K2-checked in every configuration',
-      'struct.Struct.unpack assumed to be the two\'s-complement reader; SLEB128/Int24/CString/initial-length adapter K1 contracts listed in evidence when present')
+      'ULEB128._parse and SLEB128._parse proved equal to the standard value (sign extension for any length) and length for every byte string (loop invariant, variant, raises-iff-truncated); UBInt24/ULInt24, the initial-length adapter (32/64-bit escape, reserved values), roundup proved; struct_parse is executed from its real body at every call site; every fixed-width primitive factory of ELFStructs/DWARFStructs and the initial-length struct K2-checked in every configuration',
+      'struct.Struct.unpack assumed to be the two\'s-complement reader of standard sizes; construct\'s FormatField/CString/PrefixedArray node semantics assumed (Sem, DESIGN 2.8)')
 
 claim('C01', 'proof', K1 + '; ' + K2,
       'Ehdr/Shdr/Phdr layouts K2-checked over every (class, byte order, machine, OS ABI, file type); table addressing with e_shentsize/e_phentsize, extended-numbering escapes, header fetch, type->class dispatch (all 18 kinds), segment dispatch, enumeration generators proved against their specifications for all inputs',
